@@ -147,7 +147,7 @@ def gen_case(rng, big=False):
                 cnt[0] += 1
                 sc["upd"].append([r_, m, [f"u{cnt[0]}"] + ([f"u{cnt[0]}b"] if rng.random() < 0.3 else [])])
                 answers(r_, sc["upd"][-1][2])
-    return {"interval": interval, "istr": istr, "markets": markets, "prices": prices, "specs": specs, "script": sc}
+    return {"interval": interval, "istr": istr, "markets": markets, "prices": prices, "specs": specs, "script": sc, "rerun": rng.random() < 0.35}
 
 
 # ------------------------------------------------------------------------------------------ implementation run
@@ -271,6 +271,21 @@ def run_impl(case):
         obs["df_index"] = [cl.sec(t) for t in df.index]
         obs["df_price"] = [cl.price_src(v) for v in df[("price", "USDC")]]
         obs["status_ts"] = [cl.sec(s.timestamp) for s in a.account_status]
+    if err is None and case.get("rerun") and not resampled(case["istr"]):
+        # the same Actuator and the same strategy object run again on the same data (a run that resamples its frames in place cannot be repeated on
+        # the same Actuator; an un-resampled one can): the trace of the second run must be the trace of the first
+        # (the strategy installs its triggers from initialize() by extending self.triggers in place, on every run)
+        first = list(rec.events)
+        rec.events = []
+        rec.initialized = False
+        left.clear()
+        try:
+            a.run(print_result=False)
+            obs["rerun"] = None if rec.events == first else next(([i, x, y] for i, (x, y) in enumerate(zip(rec.events + [None] * len(first), first + [None] * len(rec.events)))
+                                                                  if x != y), "length")
+        except Exception as e:  # noqa: BLE001
+            obs["rerun"] = ["raised", type(e).__name__, str(e)[:100]]
+        rec.events = first
     return obs
 
 
@@ -408,6 +423,9 @@ def oracle(ctx, case, obs, rep):
             V("Actuator.run:open-callback-on-closed-market", f"{e}")
     if ev[-1][0] != "finalize":
         V("Actuator.run:finalize", "finalize() is not the last call")
+    if obs.get("rerun") is not None:
+        V("Actuator.run:second-run-differs", f"the same Actuator and strategy run a second time on the same data: first difference (index, second run, first run) "
+                                             f"{str(obs['rerun'])[:300]}")
 
 
 def model_request(case):
